@@ -285,7 +285,7 @@ def finish(prop, tier, seed, check, results, extra, harness_errors, t0) -> int:
                 samples.append(s)
     if extra:
         evaluations += extra.get("evaluations", 0)
-        nontrivial.update(extra.get("nontrivial", []))
+        nontrivial.update(extra.get("nontrivial") or [])
         hist.update(extra.get("hist", {}))
         violations.extend(extra.get("violations", []))
         for s in extra.get("samples", []):
@@ -321,7 +321,7 @@ def finish(prop, tier, seed, check, results, extra, harness_errors, t0) -> int:
         "evaluations": evaluations + extra_evals,
         "generated_cases": evaluations,
         "executions_inside_cases": extra_evals,
-        "distinct_nontrivial": len(nontrivial),
+        "distinct_nontrivial": len(nontrivial) + int((extra or {}).get("nontrivial_count", 0)),
         "rule": check.RULE,
         "samples": samples,
         "class_histogram": dict(sorted(hist.items(), key=lambda kv: -kv[1])[:60]),
